@@ -7,6 +7,7 @@ _NUM = {
 }
 
 CHECKS = {
+    "C26": {"module": "vx.checks.c26", "instrument": {"full": {"xdsl.ir.affine.affine_expr": {}, "xdsl.ir.affine.affine_map": {}}}},
     "C12": {"module": "vx.checks.c12", "instrument": {"identity": ["xdsl.utils.worklist", "xdsl.utils.disjoint_set", "xdsl.utils.scoped_dict"]}},
     "C15": {"module": "vx.checks.c15", "instrument": {"full": {
         "xdsl.interpreters.arith": {}, "xdsl.utils.comparisons": {}, "xdsl.interpreters.func": {}, "xdsl.dialects.builtin": {},
